@@ -80,4 +80,100 @@ LEVELS = {
         'technique': TECH + '; complete enumeration of the layer-subset grid on the real Config; bounded stand-in through expand()',
         'clauses': 'F: config-layers, unknown-syntax, documented-defaults; B: expand-layers, random-layers.',
     },
+    'C01': {
+        'category': 'other',
+        'text': 'The element tree denoted by > + ^ groups and *N is built by mutually recursive code that splices lists of freshly allocated nodes; an inductive proof that the result is spec_tree(tokens) needs a heap logic for trees the VC generator does not have (DESIGN.md section 8). Deductive part so far: the markup tokenizer that feeds the parser (shared with C18). The tree itself is decided by a bounded stand-in: every operator skeleton up to 4-5 elements printed FROM the tree, expanded under six configurations and compared with the tree recovered by an independent tag parser; implicit-name table exhaustive; random skeletons up to 40 elements.',
+        'design_ref': 'DESIGN.md section 7 (C01)',
+        'note': 'Trusted: CPython for the bounded part; the independent tag parser / executable spec of the bounded oracle.',
+        'technique': TECH + '; bounded stand-in: exhaustive operator skeletons + random large trees',
+        'clauses': 'P: abbreviation tokenizer (shared); B: skeleton-exhaustive, implicit-name-table, climb-clamp, random-large.',
+    },
+    'C02': {
+        'category': 'other',
+        'text': 'Deductive part: recognition of repeater and numbering tokens (tokenizer repeater(), repeater_number(): implicit iff no digits, size == number of $, defaults without @) is proved for all inputs. Copy counts, counters inherited through groups and the maxRepeat semantics are sums over recursive calls and are decided by a bounded stand-in: exhaustive small grammar (N in 1..4, two nesting levels, all numbering forms, every maxRepeat) against an executable reading of the statement.',
+        'design_ref': 'DESIGN.md section 7 (C02)',
+        'note': 'Trusted: CPython for the bounded part; the independent tag parser / executable spec of the bounded oracle.',
+        'technique': TECH + '; bounded stand-in: exhaustive repeater grammar + random',
+        'clauses': 'P: tokenizer repeater/repeater_number; B: copies-maxrepeat, numbering-forms, random-beyond.',
+    },
+    'C03': {
+        'category': 'other',
+        'text': 'Bounded stand-in: exhaustive sequences of up to 4 attribute mentions x syntaxes x attribute options, attribute lists read back by an independent parser and compared with an executable spec of the statement (sets of renderings where the statement is silent). The merge primitives are planned under contract (DESIGN.md); nothing of C03 is counted as proved yet beyond the tokenizer.',
+        'design_ref': 'DESIGN.md section 7 (C03)',
+        'note': 'Trusted: CPython for the bounded part; the independent tag parser / executable spec of the bounded oracle.',
+        'technique': TECH + '; bounded stand-in: exhaustive attribute mention sequences',
+        'clauses': 'P: abbreviation tokenizer (shared); B: attr-sequences-exhaustive, attr-options-exhaustive, attr-owner-element.',
+    },
+    'C04': {
+        'category': 'other',
+        'text': 'Deductive part: the context-sensitive literal scanning of the tokenizer (literal(), is_allowed_operator/space/repeater) is under contract and proved to tile the input. Verbatim placement end to end is a bounded stand-in: exhaustive text payloads up to length 3-4 over the punctuation alphabet inside {..}, quoted/unquoted attribute values and wrap lines (incl. blank lines, lines that look like syntax, unicode line separators).',
+        'design_ref': 'DESIGN.md section 7 (C04)',
+        'note': 'Trusted: CPython for the bounded part; the independent tag parser / executable spec of the bounded oracle.',
+        'technique': TECH + '; bounded stand-in: exhaustive text payloads and wrap lists',
+        'clauses': 'P: tokenizer literal and context predicates; B: inline-text-exhaustive, attr-text-exhaustive, wrap-implicit-repeater, wrap-whole-text, text-unicode-line-separators.',
+    },
+    'C07': {
+        'category': 'other',
+        'text': 'Deductive part: both tokenizers raise only ScannerException with 0 <= pos <= len(input) (proved, shared with C18), Scanner.error builds the exception with the reported position. The rest of the pipeline (parser, converter, formatters, resolvers) is covered by a bounded stand-in: all strings up to length 3-4 over 20-character alphabets, prefixes and single-character mutations of every abbreviation in tests/README, x syntaxes x option sets, with a CPU-time guard standing in for termination.',
+        'design_ref': 'DESIGN.md section 7 (C07)',
+        'note': 'Trusted: CPython for the bounded part; the independent tag parser / executable spec of the bounded oracle.',
+        'technique': TECH + '; bounded stand-in: exhaustive short inputs + corpus prefixes/mutations x configurations',
+        'clauses': 'P: Scanner.error, both tokenizers; B: 13 clauses (markup/stylesheet exhaustive, prefixes, mutations, snippet names, random).',
+    },
+    'C08': {
+        'category': 'other',
+        'text': 'Whole-history statement: reduced in DESIGN.md to frame/ownership obligations. Deductive part so far: config.merged_data writes nothing but its fresh result (frame proved for arbitrary dictionaries, shared with C20). Histories are a bounded stand-in: sequences of 2-4 calls (shared cache, shared config object, failing calls) followed by a probe compared with the same probe in a fresh interpreter; growth of every module-level container, default argument and live emmet object is monitored.',
+        'design_ref': 'DESIGN.md section 7 (C08)',
+        'note': 'Trusted: CPython for the bounded part; the independent tag parser / executable spec of the bounded oracle.',
+        'technique': TECH + '; bounded stand-in: call histories vs fresh-interpreter reference, retention monitor',
+        'clauses': 'P: merged_data frame; B: shared-cache, shared-config-object, independent-calls, random-histories, no-retention.',
+    },
+    'C11': {
+        'category': 'other',
+        'text': 'Deductive part, proved for every line, position and option record: extract_abbreviation() returns None or a result with 0 <= start <= location <= end <= len(line), abbreviation == line[location:end], no leading > + ^ *, the configured prefix found at start with the abbreviation to its right, the end moved by look-ahead only across one quote and closing brackets; is_html() is an observer (cursor restored); every backward consumer stays within [start, pos] and terminates. The round trip (a valid abbreviation is extracted exactly) compares with an independent grammar and is a bounded stand-in.',
+        'design_ref': 'DESIGN.md section 7 (C11)',
+        'note': 'Trusted: pyvc encoding; external contract for re.sub(r"^[*+>^]+", "", s) (suffix starting at the first other character).',
+        'technique': TECH + '; bounded stand-in: grammar-generated abbreviations x left/right contexts',
+        'clauses': 'P: all of extract_abbreviation (reader, is_html, __init__); B: consistency-exhaustive (cross-check), roundtrip-* clauses.',
+    },
+    'C12': {
+        'category': 'other',
+        'text': 'Bounded stand-in: the same abbreviation under pairs of formatting option assignments x syntaxes compared after dropping inter-tag whitespace, comments and the self-closing slash; indentation == baseIndent + depth x indent; self-closing style exactness. Level bookkeeping of format.html.element is planned under contract (DESIGN.md).',
+        'design_ref': 'DESIGN.md section 7 (C12)',
+        'note': 'Trusted: CPython for the bounded part; the independent tag parser / executable spec of the bounded oracle.',
+        'technique': TECH + '; bounded stand-in: option-pair comparisons, indentation oracle',
+        'clauses': 'B: cosmetic-pairs, indent-equals-depth, selfclose-exact.',
+    },
+    'C13': {
+        'category': 'other',
+        'text': 'Bounded stand-in: recording output.field/output.text callbacks; for every invocation final[offset:offset+len(ret)] == ret and line/column recomputed from the final string; tabstop numbering 1,2,3.. in document order, explicit fields keep relative numbering. OutputStream bookkeeping is planned under contract (DESIGN.md).',
+        'design_ref': 'DESIGN.md section 7 (C13)',
+        'note': 'Trusted: CPython for the bounded part; the independent tag parser / executable spec of the bounded oracle.',
+        'technique': TECH + '; bounded stand-in: recording callbacks over generated abbreviations x newline/indent settings',
+        'clauses': 'B: callback-positions, callback-positions-multiline-placeholder, tabstops-auto, tabstops-explicit.',
+    },
+    'C14': {
+        'category': 'other',
+        'text': 'Complete finite-domain clauses: every name of the built-in html/xsl/pug snippet tables expands exactly like its definition (10 syntaxes), every part of every raw a|b key maps to that key. Aliases inside larger abbreviations and random user tables with self- and mutual references (termination, nesting depth <= number of snippets) are bounded stand-ins. The cycle-guard invariant of resolve_snippets is planned under contract.',
+        'design_ref': 'DESIGN.md section 7 (C14)',
+        'note': 'Trusted: CPython for the bounded part; the independent tag parser / executable spec of the bounded oracle.',
+        'technique': TECH + '; complete enumeration of the built-in snippet tables; bounded stand-in for decorated aliases and user tables',
+        'clauses': 'F: snippet-keys, builtin-alias; B: alias-decorated, user-tables.',
+    },
+    'C15': {
+        'category': 'other',
+        'text': 'Bounded stand-in: exhaustive skeletons up to 5 elements x haml/pug/slim x indent strings: one line per element, indentation/len(indent) == depth, name#id.class heads, multi-line text one level deeper, tree recovered from indentation == tree of the HTML output. Level bookkeeping of indent_format.element is planned under contract.',
+        'design_ref': 'DESIGN.md section 7 (C15)',
+        'note': 'Trusted: CPython for the bounded part; the independent tag parser / executable spec of the bounded oracle.',
+        'technique': TECH + '; bounded stand-in: exhaustive skeletons, head forms, text-only / self-closing placements',
+        'clauses': 'B: lines-skeleton-exhaustive, head-forms, text-only-self-closing-levels, text-only-self-closing-heads, random-large.',
+    },
+    'C19': {
+        'category': 'other',
+        'text': 'Bounded stand-in against an independent recogniser with exact Fraction arithmetic: every token sequence up to 6 (8 for a narrow alphabet) tokens, random deeper expressions, arbitrary strings for the error clause; extract() on all strings up to length 4, all positions. The backward extractor and parser bookkeeping are planned under contract (DESIGN.md): operator-precedence correctness itself is a protocol-level proof outside this technique.',
+        'design_ref': 'DESIGN.md section 7 (C19)',
+        'note': 'Trusted: CPython for the bounded part; the independent tag parser / executable spec of the bounded oracle.',
+        'technique': TECH + '; bounded stand-in: exhaustive token sequences vs independent evaluator',
+        'clauses': 'B: evaluate-token-sequences(-narrow), evaluate-wellformed-deeper, evaluate-random, evaluate-strings, extract-exhaustive.',
+    },
 }
